@@ -1,6 +1,6 @@
 (** C19 — Repeating iteration cycles through the whole split forever.
     Property theorems only; each is closed by [exact] of a lemma proved in Proofs/. *)
-Require Import Sedpack.Model.Base Sedpack.Generated.GenIter Sedpack.Model.Iter Sedpack.Proofs.IterProofs.
+Require Import Sedpack.Model.Base Sedpack.Generated.GenIter Sedpack.Model.Iter Sedpack.Proofs.IterProofs Sedpack.Proofs.ChainProofs Sedpack.Proofs.CycleChain.
 From Coq Require Import Permutation.
 
 (** Unshuffled: the repeating path stream is periodic — its k-th element is the (k mod N)-th
@@ -24,6 +24,17 @@ Print Assumptions c19_shuffled_stream_stays_in_split.
 
 (** It never ends and never stalls: every step after the fill yields one more element (C14's
     bound says how few elements it holds back). *)
+(** The unshuffled repeating synchronous reader as a composition — the lazy chain of shards over [itertools.cycle] of the selected
+    paths: for EVERY k (not a prefix of a few epochs) the k-th example handed over is example (k mod N) of a single pass, N being
+    the number of examples of the selection (every shard holds at least one example). *)
+Theorem c19_sync_reader_periodic :
+  forall (path ex : Type) (read : path -> list ex) (l : list path) (dp : path) (de : ex),
+  l <> nil -> (forall p, 1 <= length (read p)) ->
+  forall (k : nat) (s0 : cstate path ex (cycle_source l dp)), s0 = chain_init path ex (cycle_source l dp) 0 ->
+  chain_nth path ex read l dp k s0 = Some (nth (k mod length (concat (map read l))) (concat (map read l)) de).
+Proof. exact chain_cycle_periodic. Qed.
+Print Assumptions c19_sync_reader_periodic.
+
 Theorem c19_nonvacuous :
   let st := sb_run (cycle_source [1; 2; 3] 0) (lcg_pick 5) (@rev nat) 2 100 (sb_init (cycle_source [1; 2; 3] 0) 0) in
   length (sb_out st) = 97 /\ take_src nat [7; 8; 9] 0 7 0 = [7; 8; 9; 7; 8; 9; 7].
